@@ -56,8 +56,8 @@ def run(tier, replay=None):
                 continue          # the listening stream of the Streamable client ends cleanly every time it is opened
             if client == "get" and pos != "instead":
                 continue          # on the listening stream the bad frame simply precedes a well-formed notification
-            nvar = {"nonjson": 3, "wrongkind": 2, "idtype": 6, "giant": 2, "comment": 4, "fieldtype": 12, "noevent": 4, "otherevent": 4}.get(bad, 1)
-            variants = range(nvar) if tier == "thorough" else ([rnd.randrange(nvar)] if bad not in ("fieldtype", "comment", "noevent", "otherevent", "idtype") else rnd.sample(range(nvar), 4))
+            nvar = {"nonjson": 3, "wrongkind": 2, "idtype": 6, "giant": 2, "comment": 4, "fieldtype": 18, "noevent": 4, "otherevent": 4}.get(bad, 1)
+            variants = range(nvar) if tier == "thorough" else ([rnd.randrange(nvar)] if bad not in ("fieldtype", "comment", "noevent", "otherevent", "idtype") else (rnd.sample(range(nvar), 4) if bad != "fieldtype" else rnd.sample(range(12), 4) + rnd.sample(range(12, 18), 2)))
             if client == "json" and tier == "thorough":
                 variants = range(5)
             for v in variants:
